@@ -336,3 +336,33 @@ def _apply_symbolic_all(h):
         nums2 = [c for call in be2.calls for c in [_flatnum(x) for x in call[1]] if c is not None]
         h.ensure(f"{name}.second-application-uses-the-new-value", out2.returned and any(abs(c - (-0.35)) < 1e-12 for c in nums2)
                  and not any(abs(c - 0.35) < 1e-12 for c in nums2), bounded_shape=True)
+
+
+@proof("C09", ENGINE + ":BaseEngine.reset", name="BaseEngine.reset+LocalEngine.reset/history-and-measured-values-cleared")
+def _engine_reset(h):
+    """after reset the engine behaves like a fresh one: every previously run segment is cleared of measured values, the run
+    history and the stored samples are empty, the backend is reset once with the (updated) backend options - and nothing
+    else about the programs changes"""
+    import types
+    eng_mod = h.module(ENGINE)
+    log = []
+
+    class Seg:
+        def __init__(self, name):
+            self.name, self.cleared, self.circuit = name, 0, ["CIRCUIT-" + name]
+
+        def _clear_regrefs(self):
+            self.cleared += 1
+    A, B = Seg("A"), Seg("B")
+    backend = types.SimpleNamespace(reset=lambda **kw: log.append(("backend.reset", dict(kw))))
+    eng = object.__new__(eng_mod.LocalEngine)
+    opts = {"cutoff_dim": 5}
+    for k_, v_ in dict(backend=backend, run_progs=[A, B], samples="SAMPLES", samples_dict={"d": 1}, backend_name="stub", backend_options=opts).items():
+        setattr(eng, k_, v_)
+    out = h.call(eng.reset, {"pure": False})
+    h.ensure("no-exception", out.returned, bounded_shape=True)
+    h.ensure("every-run-segment-cleared-of-measured-values-once", A.cleared == 1 and B.cleared == 1, bounded_shape=True)
+    h.ensure("run-history-empty", list(eng.run_progs) == [], bounded_shape=True)
+    h.ensure("stored-samples-cleared", eng.samples is None, bounded_shape=True)
+    h.ensure("backend-reset-once-with-the-updated-options", log == [("backend.reset", {"cutoff_dim": 5, "pure": False})], bounded_shape=True)
+    h.ensure("programs-otherwise-untouched", A.circuit == ["CIRCUIT-A"] and B.circuit == ["CIRCUIT-B"], bounded_shape=True)
